@@ -58,6 +58,17 @@ def run(tier, seed):
         for close in ("", "`end_keywords\nmodule c; logic x; endmodule\n"):
             ins.append(("sv", first + '`begin_keywords "%s"\n' % ver + body + close, "keyword-region"))
             ins.append(("sv", first * 3 + '`begin_keywords "%s"\n' % ver + body * 4 + close, "keyword-region-long"))
+    # the optional leading parts of source_text / library_text behind leading trivia: the two modes must read
+    # blanks, comments and directives in front of a compilation-unit timeunits declaration the same way
+    # (round-2 seeded change: incomplete mode tried the timeunits slot before the leading white space)
+    LEADS = ["", " ", "\n", "\t\n  ", "// head\n", "/* h */ ", "`celldefine\n", "`timescale 1ns/1ps\n", "\n// a\n/* b */\n`default_nettype none\n"]
+    for lead in LEADS:
+        for tu in ("timeunit 1ns;", "timeprecision 1ps;", "timeunit 1ns / 1ps;", "timeunit 1ns; timeprecision 1ps;", "timeprecision 1ps; timeunit 1ns;", ""):
+            for rest in ("\nmodule m; endmodule\n", "\nimport p::*;\nmodule m; timeunit 1ns; endmodule\n", "\n"):
+                ins.append(("sv", lead + tu + rest, "leading-trivia"))
+    for (kind, text, src) in list(ins):
+        if src in ("grammar", "corpus") and rng.random() < 0.3:
+            ins.append((kind, rng.choice(LEADS[1:]) + text, src + "+lead"))
     ins += [("lib", "library l a.v, b.v; include \"x\"; config c; design l.a; default liblist l; endconfig", "lib"),
             ("lib", "library l a.v;\nlibrary", "lib-damaged"), ("sv", "", "empty"), ("sv", "@", "junk only"), ("lib", "@", "junk only")]
     hcases = []
